@@ -115,8 +115,9 @@ func (f *RequiredField) DoRead(r io.ReadSeeker, pg Page) (io.Reader, []int, erro
 	var nRead int
 	var out []byte
 	var sizes []int
+	rc := &readCounter{r: r}
 	for nRead < pg.N {
-		ph, err := PageHeader(r)
+		ph, err := PageHeader(rc)
 		if err != nil {
 			return nil, nil, err
 		}
@@ -127,7 +128,7 @@ func (f *RequiredField) DoRead(r io.ReadSeeker, pg Page) (io.Reader, []int, erro
 
 		sizes = append(sizes, int(ph.DataPageHeader.NumValues))
 
-		data, err := pageData(r, ph, pg)
+		data, err := pageData(rc, ph, pg)
 		if err != nil {
 			return nil, nil, err
 		}
@@ -135,7 +136,20 @@ func (f *RequiredField) DoRead(r io.ReadSeeker, pg Page) (io.Reader, []int, erro
 		out = append(out, data...)
 		nRead += int(ph.DataPageHeader.NumValues)
 	}
+	if err := chunkMatches(f.pth, pg, nRead, rc.n); err != nil {
+		return nil, nil, err
+	}
 	return bytes.NewBuffer(out), sizes, nil
+}
+
+// chunkMatches returns an error if the pages that were read for a column
+// chunk do not add up to the values and bytes its metadata promises, the
+// footer then does not belong to the data (a cut off or overwritten file).
+func chunkMatches(pth []string, pg Page, values int, size int64) error {
+	if values != pg.N || size != int64(pg.Size) {
+		return fmt.Errorf("column chunk %s holds %d values in %d bytes, its metadata says %d values in %d bytes", strings.Join(pth, "."), values, size, pg.N, pg.Size)
+	}
+	return nil
 }
 
 // Name returns the column name of this field
@@ -277,7 +291,7 @@ func (f *OptionalField) DoWrite(w io.Writer, meta *Metadata, vals []byte, count 
 // DoRead is called by all optional fields.  It reads the definition levels and uses
 // them to interpret the raw data.
 func (f *OptionalField) DoRead(r io.ReadSeeker, pg Page) (io.Reader, []int, error) {
-	var nRead int
+	var nRead, nValues int
 	var out []byte
 	var sizes []int
 	var rc *readCounter
@@ -320,6 +334,10 @@ func (f *OptionalField) DoRead(r io.ReadSeeker, pg Page) (io.Reader, []int, erro
 		sizes = append(sizes, n)
 		out = append(out, data[l:]...)
 		nRead += int(rc.n)
+		nValues += int(ph.DataPageHeader.NumValues)
+	}
+	if err := chunkMatches(f.pth, pg, nValues, int64(nRead)); err != nil {
+		return nil, nil, err
 	}
 	return bytes.NewBuffer(out), sizes, nil
 }
